@@ -53,14 +53,26 @@ def base_dataset(kind, rng, side):
     return ds
 
 
-def apply_fault(ds, fault, rng):
+def apply_fault(ds, fault, rng, variant=None):
     rows, cols = ds.sizes["row"], ds.sizes["col"]
     if fault == "no_im":
         return ds.drop_vars("im")
     if fault == "band_names_not_str":
+        # "string band names" is a statement about EVERY name: numeric coordinates, object-typed coordinates of numbers, and
+        # object-typed coordinates holding strings and one non-string (None = a band without description, or a number)
+        how = rng.randint(0, 5) if variant is None else variant
         if "band_im" in ds.coords:
-            return ds.assign_coords(band_im=list(range(ds.sizes["band_im"])))
-        new = xr.Dataset({"im": (["band_im", "row", "col"], ds["im"].data[np.newaxis])}, coords={"band_im": [1], "row": ds.coords["row"], "col": ds.coords["col"]}, attrs=ds.attrs)
+            nb = ds.sizes["band_im"]
+            if how == 0:
+                names = list(range(nb))
+            elif how == 1:
+                names = np.array(list(range(nb)), dtype=object)
+            else:
+                names = np.array([f"b{i}" for i in range(nb)], dtype=object)
+                names[rng.randint(0, nb)] = [None, 1, 2.5][how - 2]
+            return ds.assign_coords(band_im=names)
+        one = [1] if how % 2 == 0 else np.array([None if how == 1 else 7], dtype=object)
+        new = xr.Dataset({"im": (["band_im", "row", "col"], ds["im"].data[np.newaxis])}, coords={"band_im": one, "row": ds.coords["row"], "col": ds.coords["col"]}, attrs=ds.attrs)
         for v in ds.data_vars:
             if v != "im":
                 new[v] = ds[v]
@@ -146,6 +158,33 @@ def run(tier):
             check_datasets(L, R)
         except Exception as exc:  # pylint: disable=broad-except
             chk.violation("well_formed_accepted", {"base": kind}, {"exception": repr(exc)[:300]}, f"well-formed base pair {kind} refused: {exc!r}")
+    # every VARIANT of the band-name fault on its own, on each side of every base (the verdict is the specification's verdict of the
+    # behaviour whose only fault is this one): "string band names" is about every name of the coordinate, whatever its container
+    for side in ("L", "R"):
+        want = [b for b in behs if sorted(b["fl" if side == "L" else "fr"]) == ["band_names_not_str"] and not b["fr" if side == "L" else "fl"] and not b["fp"]]
+        if side == "L" and not want:
+            raise MachineryFailure("no behaviour with the band-name fault alone")
+        for kind in range(6):
+            for variant in range(5):
+                if not want:
+                    continue
+                L, R = base_dataset(kind, rng, "L"), base_dataset(kind, rng, "R")
+                if side == "L":
+                    L = apply_fault(L, "band_names_not_str", rng, variant)
+                else:
+                    R = apply_fault(R, "band_names_not_str", rng, variant)
+                chk.count(("band_variant", side, kind, variant))
+                try:
+                    check_datasets(L, R)
+                    got = True
+                except Exception:  # pylint: disable=broad-except
+                    got = False
+                if got != want[0]["accepted"]:
+                    bad = (L if side == "L" else R).coords["band_im"]
+                    chk.violation("accept_iff_well_formed", {"contract": "dataset_pair", "expected_accept": want[0]["accepted"],
+                                                              "faults_left": sorted(want[0]["fl"]), "faults_right": sorted(want[0]["fr"]), "faults_pair": []},
+                                  {"base": kind, "behaviour": want[0], "band_im": [repr(x) for x in bad.data], "dtype": str(bad.dtype)},
+                                  f"dataset pair whose {side} band names are {[repr(x) for x in bad.data]} (dtype {bad.dtype}): accepted={got}")
     step = 1 if tier == "thorough" else 3
     for i, b in enumerate(behs[::step]):
         if not (compatible(b["fl"]) and compatible(b["fr"])):
